@@ -67,7 +67,8 @@ contract(FN, "Node.replace", {"self": "Node", "from_": "int", "to": "int", "slic
          may_raise={"ValueError": "True", "ReplaceError": "True"},
          # out-of-range positions are reported, never indexed with; a deeply valid document stays deeply valid
          ensures=["0 <= from_ and from_ <= self.content.size and 0 <= to and to <= self.content.size",
-                  f"dvalid(self) and not self.type.is_text and {PAYLOAD} and prep_valid(slice, self, from_) ==> dvalid(result)", "result.type == self.type"],
+                  f"dvalid(self) and not self.type.is_text and {PAYLOAD} and prep_valid(slice, self, from_) ==> dvalid(result)", "result.type == self.type",
+                  "slice.content.size == 0 ==> result.content.size == self.content.size - (to - from_)"],
          props=P + ["C02"])
 
 # ---- step results
@@ -75,7 +76,8 @@ contract(FST, "StepResult.from_replace", {"doc": "Node", "from_": "int", "to": "
          # a ReplaceError becomes a failed result; only an out-of-range position may raise (ValueError)
          may_raise={"ValueError": "True"},
          ensures=["(result.failed is None) == (result.doc is not None)",
-                  f"dvalid(doc) and not doc.type.is_text and {PAYLOAD} and prep_valid(slice, doc, from_) and result.doc is not None ==> dvalid(result.doc)"],
+                  f"dvalid(doc) and not doc.type.is_text and {PAYLOAD} and prep_valid(slice, doc, from_) and result.doc is not None ==> dvalid(result.doc)",
+                  "slice.content.size == 0 and result.doc is not None ==> result.doc.content.size == doc.content.size - (to - from_)"],
          props=P)
 
 contract(FRS, "content_between", {"doc": "Node", "from_": "int", "to": "int"}, returns="bool",
@@ -134,7 +136,9 @@ contract(FRS, "ReplaceStep.apply", {"self": "ReplaceStep", "doc": "Node"}, retur
                   f"({STRUCT_RS}) ==> result.failed is not None",
                   # C01 for replace steps: from a deeply valid document and a payload-valid slice, a step that does not fail yields a deeply valid document
                   "dvalid(doc) and not doc.type.is_text and implies(self.slice.open_start == 0 and self.slice.open_end == 0, fvalid(self.slice.content.content))"
-                  " and prep_valid(self.slice, doc, self.from_) and result.doc is not None ==> dvalid(result.doc)"],
+                  " and prep_valid(self.slice, doc, self.from_) and result.doc is not None ==> dvalid(result.doc)",
+                  # C03 for deletions: the document shrinks by exactly what the step's map [from, to - from, 0] says
+                  "self.slice.content.size == 0 and result.doc is not None ==> result.doc.content.size == doc.content.size - (self.to - self.from_)"],
          props=P)
 contract(FRS, "ReplaceAroundStep.apply", {"self": "ReplaceAroundStep", "doc": "Node"}, returns="StepResult",
          may_raise={"ValueError": "True"},
@@ -165,15 +169,18 @@ contract(FN, "TextNode.with_text", {"self": "TextNode", "text": "str"}, returns=
          trusted="TextNode constructor (text nodes are built only here and in Schema.text): same type, attributes and marks", 
          ensures=["result.type == self.type", "result.marks == self.marks", "result.attrs == self.attrs", "result.text == text"], props=P)
 contract(FN, "Node.cut", {"self": "Node", "from_": "int", "to": "opt[int]"}, returns="Node", virtual=True,
-         virtual_ensures=["self.type.is_text ==> result.type == self.type"],
+         virtual_ensures=["self.type.is_text ==> result.type == self.type",
+                          # UTF-16 cut of a text node: the units from_ .. to (A7, trusted)
+                          "self.type.is_text and 0 <= from_ and (to is None or (from_ <= to and to <= nsize(self))) ==> nsize(result) == (nsize(self) if to is None else to) - from_"],
          trusted="dynamic dispatch: for a text node this is TextNode.cut (encode / slice / decode, A7), which returns a text node of the same type; for other nodes nothing is promised here",
          props=P)
 contract(FP_, "ResolvedPos.node_after", {"self": "ResolvedPos"}, returns="opt[Node]", is_property=True,
          ensures=["(result is None) == (rp_index(self, self.depth) == len(rp_node(self, self.depth).content.content))",
                   "result is not None and rp_toff(self) == 0 ==> result == rp_node(self, self.depth).content.content[rp_index(self, self.depth)]",
-                  "result is not None and rp_toff(self) != 0 ==> result.type.is_text and dvalid(result)"], props=P + ["C09"])
+                  "result is not None and rp_toff(self) != 0 ==> result.type.is_text and dvalid(result)",
+                  "result is not None and rp_toff(self) != 0 ==> nsize(result) == nsize(rp_node(self, self.depth).content.content[rp_index(self, self.depth)]) - rp_toff(self)"], props=P + ["C09"])
 contract(FP_, "ResolvedPos.node_before", {"self": "ResolvedPos"}, returns="opt[Node]", is_property=True,
-         ensures=["rp_toff(self) != 0 ==> result is not None and result.type.is_text and dvalid(result)",
+         ensures=["rp_toff(self) != 0 ==> result is not None and result.type.is_text and dvalid(result) and nsize(result) == rp_toff(self)",
                   "rp_toff(self) == 0 ==> (result is None) == (rp_index(self, self.depth) == 0)",
                   "rp_toff(self) == 0 and result is not None ==> result == rp_node(self, self.depth).content.content[rp_index(self, self.depth) - 1]"], props=P + ["C09"])
 
@@ -191,9 +198,13 @@ lemma("fvalid-append", {"c": "list[Node]", "u": "list[Node]", "x": "Node"},
       ensures=["fvalid(u)"], props=P + ["C02"])
 
 contract(FR, "add_node", {"child": "Node", "target": "list[Node]"}, mutates=["target"],
-         ensures=["dvalid(child) and fvalid(old(target)) ==> fvalid(target)", "len(target) >= len(old(target))", "len(target) >= 1"],
+         ensures=["dvalid(child) and fvalid(old(target)) ==> fvalid(target)", "len(target) >= len(old(target))", "len(target) >= 1",
+                  # merging two text nodes adds their lengths (UTF-16 length is additive): the total size grows by the child's size either way
+                  "pre(target, len(target)) == pre(old(target), len(old(target))) + nsize(child)"],
          calls=[("dvalid-text", ["target[len(target) - 1]"]), ("fvalid-update", ["old(target)", "target", "target[len(target) - 1]", "len(old(target)) - 1"]),
-                ("fvalid-append", ["old(target)", "target", "child"])],
+                ("fvalid-append", ["old(target)", "target", "child"]),
+                ("pre-update", ["old(target)", "len(old(target)) - 1", "target[len(target) - 1]", "len(old(target))"]),
+                ("pre-concat", ["old(target)", "[child]", "1"]), ("pre-step", ["old(target)", "len(old(target)) - 1", "len(old(target))"])],
          props=P + ["C02"])
 
 RPC1 = "all_(0, {r}.depth, lambda d: p3b({r}.path, d) < len(p3a({r}.path, d).content.content) and p3a({r}.path, d + 1) == p3a({r}.path, d).content.content[p3b({r}.path, d)])"
@@ -209,9 +220,18 @@ contract(FR, "add_range", {"start": "opt[ResolvedPos]", "end": "opt[ResolvedPos]
                    "start is not None ==> depth <= start.depth", "end is not None ==> depth <= end.depth",
                    "start is not None and end is not None ==> rp_node(start, depth) == rp_node(end, depth)"],
          # children of a deeply valid (non-text) node, and cut text nodes, are added: deep validity of the list is kept
-         ensures=[f"dvalid(rp_node({SE}, depth)) and not rp_node({SE}, depth).type.is_text and fvalid(old(target)) ==> fvalid(target)"],
+         ensures=[f"dvalid(rp_node({SE}, depth)) and not rp_node({SE}, depth).type.is_text and fvalid(old(target)) ==> fvalid(target)",
+                  # size accounting of the two one-sided forms: everything before `end` / after `start` inside the node at that depth
+                  "start is None ==> pre(target, len(target)) == pre(old(target), len(old(target))) + (end.pos if end.depth == depth else p3c(end.path, depth)) - rp_start(end, depth)",
+                  "end is None ==> pre(target, len(target)) == pre(old(target), len(old(target))) + rp_end(start, depth)"
+                  " - (start.pos if start.depth == depth else p3c(start.path, depth) + nsize(rp_node(start, depth).content.content[rp_index(start, depth)]))"],
          loops={0: dict(invariant=[f"dvalid(rp_node({SE}, depth)) and not rp_node({SE}, depth).type.is_text and fvalid(old(target)) ==> fvalid(target)",
-                                   "0 <= i", f"end_index <= len(rp_node({SE}, depth).content.content)", f"node == rp_node({SE}, depth)"],
+                                   "0 <= i", f"end_index <= len(rp_node({SE}, depth).content.content)", f"node == rp_node({SE}, depth)",
+                                   "start_index <= i", "i <= end_index or i == start_index",
+                                   f"pre(target, len(target)) == pre(old(target), len(old(target))) + ((nsize(rp_node(start, depth).content.content[rp_index(start, depth)]) - rp_toff(start)) if (start is not None and start.depth <= depth and rp_toff(start) != 0) else 0) + pre(rp_node({SE}, depth).content.content, i) - pre(rp_node({SE}, depth).content.content, start_index)",
+                                   "start is None ==> start_index == 0",
+                                   "start is not None ==> start_index == rp_index(start, depth) + (1 if (start.depth > depth or rp_toff(start) != 0) else 0)",
+                                   f"end is None ==> end_index == len(rp_node({SE}, depth).content.content)", "end is not None ==> end_index == rp_index(end, depth)"],
                         decreases="end_index - i")},
          calls_func={"add_node": [("dvalid-kids", ["node", "i"])]},
          props=P + ["C02"])
@@ -220,7 +240,9 @@ contract(FR, "replace_two_way", {"from_": "ResolvedPos", "to": "ResolvedPos", "d
          requires=["0 <= depth", "depth <= from_.depth", "from_.depth == to.depth"],
          may_raise={"ReplaceError": "True"},
          # for positions in deeply valid documents, every node of what the two-way rebuild returns is deeply valid
-         ensures=["dvalid(rp_node(from_, 0)) and not rp_node(from_, 0).type.is_text and dvalid(rp_node(to, 0)) and not rp_node(to, 0).type.is_text ==> fvalid(result.content)"],
+         ensures=["dvalid(rp_node(from_, 0)) and not rp_node(from_, 0).type.is_text and dvalid(rp_node(to, 0)) and not rp_node(to, 0).type.is_text ==> fvalid(result.content)",
+                  # size: what lies before `from_` and after `to` inside their ancestors at this depth (the tokens in between are gone)
+                  "result.size == (from_.pos - rp_start(from_, depth)) + (rp_end(to, depth) - to.pos)"],
          decreases="from_.depth - depth",
          calls_func={"add_range": [("rp-dvalid", ["from_", "depth"]), ("rp-dvalid", ["to", "depth"])],
                      "joinable": [("rp-dvalid", ["from_", "depth + 1"])]},
@@ -292,22 +314,34 @@ contract(FR, "replace_three_way", {"from_": "ResolvedPos", "start": "ResolvedPos
          props=P + ["C02"])
 
 SAME = "all_(0, depth + 1, lambda k: rp_node(from_, k) == rp_node(to, k))"
+IDX_SAME = "all_(0, depth, lambda k: rp_index(from_, k) == rp_index(to, k))"
+SAME_P = "all_(0, depth + 1, lambda k: p3a(from_.path, k) == p3a(to.path, k))"
+IDX_SAME_P = "all_(0, depth, lambda k: p3b(from_.path, k) == p3b(to.path, k))"
+PD = "all_(1, {r}.depth + 1, lambda d: p3c({r}.path, d) == p3c({r}.path, d - 1) + 1 + pre(p3a({r}.path, d).content.content, p3b({r}.path, d)))"
+P0 = "p3c({r}.path, 0) == pre(p3a({r}.path, 0).content.content, p3b({r}.path, 0))"
+lemma("same-start", {"a": "ResolvedPos", "b": "ResolvedPos", "n": "int"},
+      # two resolved paths that agree on nodes (down to level n) and indices (above level n) have the same offsets above level n
+      requires=["0 <= n", "n <= a.depth", "n <= b.depth", "all_(0, n + 1, lambda k: p3a(a.path, k) == p3a(b.path, k))", "all_(0, n, lambda k: p3b(a.path, k) == p3b(b.path, k))",
+                P0.format(r="a"), P0.format(r="b"), PD.format(r="a"), PD.format(r="b")],
+      ensures=["n >= 1 ==> p3c(a.path, n - 1) == p3c(b.path, n - 1)"], induct="n", props=P + ["C02", "C03"])
 # the hypothesis of C01: the document is deeply valid (and a real document, not a text node), and the
 # nodes of a closed slice are themselves deeply valid (for an open slice see replace_three_way)
 VALID_IN = ("(dvalid(rp_node(from_, 0)) and not rp_node(from_, 0).type.is_text and implies(slice.open_start == 0 and slice.open_end == 0, fvalid(slice.content.content))"
             " and prep_valid(slice, rp_node(from_, 0), from_.pos))")
 contract(FR, "replace_outer", {"from_": "ResolvedPos", "to": "ResolvedPos", "slice": "Slice", "depth": "int"}, returns="Node",
-         requires=["0 <= depth", "depth <= from_.depth - slice.open_start", "depth <= to.depth - slice.open_end", f"not ({GUARD})", SAME],
+         requires=["0 <= depth", "depth <= from_.depth - slice.open_start", "depth <= to.depth - slice.open_end", f"not ({GUARD})", SAME, IDX_SAME, SAME_P, IDX_SAME_P],
          may_raise={"ReplaceError": "True", "ValueError": "True"},
          # for a deeply valid document and a payload-valid slice (VALID_IN) the rebuilt node is deeply valid
-         ensures=[f"{VALID_IN} ==> dvalid(result)", "result.type == rp_node(from_, depth).type", "result.marks == rp_node(from_, depth).marks"],
+         ensures=[f"{VALID_IN} ==> dvalid(result)", "result.type == rp_node(from_, depth).type", "result.marks == rp_node(from_, depth).marks",
+                  # a deletion shrinks the node by exactly the deleted range
+                  "slice.content.size == 0 ==> result.content.size == rp_node(from_, depth).content.size - (to.pos - from_.pos)"],
          decreases="from_.depth - depth",
          calls_func={"replace_outer": [("rp-dvalid", ["from_", "depth"])],
                      "Fragment.cut": [("rp-at-boundary", ["from_"]), ("rp-at-boundary", ["to"])],
                      "replace_two_way": [("pre-step", ["slice.content.content", "0", "len(slice.content.content)"])],
                      "close": [("rp-dvalid", ["from_", "depth"]), ("rp-at-boundary", ["from_"]), ("rp-at-boundary", ["to"]), ("rp-dvalid", ["from_", "from_.depth"]),
                                ("dvalid-kids", ["rp_node(from_, from_.depth)", "0"])]},
-         calls=[("rp-dvalid", ["from_", "depth"]), ("dvalid-kids", ["node", "index"]),
+         calls=[("rp-dvalid", ["from_", "depth"]), ("dvalid-kids", ["node", "index"]), ("same-start", ["from_", "to", "depth"]),
                 ("valid-seq-ext", ["node.type", "node.content.content", "result.content.content"]),
                 ("fvalid-update", ["node.content.content", "result.content.content", "inner", "index"]),
                 ("dvalid-intro", ["result"])],
@@ -315,7 +349,8 @@ contract(FR, "replace_outer", {"from_": "ResolvedPos", "to": "ResolvedPos", "sli
          uses=["pre-nonneg"],
          props=P + ["C02"])
 _api.CONTRACTS["replace"].requires = ["rp_node(from_, 0) == rp_node(to, 0)"]
-_api.CONTRACTS["replace"].cases[0]["ensures"] = [f"{VALID_IN} ==> dvalid(result)", "result.type == rp_node(from_, 0).type"]
+_api.CONTRACTS["replace"].cases[0]["ensures"] = [f"{VALID_IN} ==> dvalid(result)", "result.type == rp_node(from_, 0).type",
+                                                  "slice.content.size == 0 ==> result.content.size == rp_node(from_, 0).content.size - (to.pos - from_.pos)"]
 _api.CONTRACTS["replace"].may_raise = {"ValueError": "True", "ReplaceError": "True"}
 
 
@@ -364,3 +399,9 @@ contract(FF, "Fragment.cut", {"self": "Fragment", "from_": "int", "to": "opt[int
          locals={"result": "list[Node]"},
          uses=["pre-nonneg"],
          props=P + ["C02"])
+
+# C03: the size clause for deletions rests on these
+for _k in ("ReplaceStep.apply", "StepResult.from_replace", "Node.replace", "replace", "replace_outer", "replace_two_way", "add_range", "add_node", "close", "Node.copy",
+           "ResolvedPos.node_after", "ResolvedPos.node_before", "Fragment.replace_child", "Node.resolve", "ResolvedPos.resolve_cached", "ResolvedPos.resolve"):
+    if "C03" not in _api.CONTRACTS[_k].props:
+        _api.CONTRACTS[_k].props.append("C03")
